@@ -362,6 +362,7 @@ class MonthTable(Sub):
     """exhaustive: every start month/day of a leap and a non-leap year x delta months -25..25 x delta years"""
     name = "month_table"
     kind = "enum"
+    case_timeout = 900.0
     backends = ("py",)
     n = {"quick": 0, "thorough": 0}
     shards = {"quick": 4, "thorough": 8}
@@ -402,6 +403,7 @@ class MonthTable(Sub):
 class EveryYearFebruary(Sub):
     name = "every_year_february"
     kind = "enum"
+    case_timeout = 900.0
     ambient = True
     n = {"quick": 0, "thorough": 0}
     shards = {"quick": 4, "thorough": 8}
